@@ -76,7 +76,7 @@ PROPS = {
                 extra_assumptions=[TW_NOTE]),
     "C10": spec([reg("C10", 36000, 45, 2000000, 700), tw(6000, 20, 300000, 150)],
                 extra_assumptions=[TW_NOTE]),
-    "C12": spec([reg("C12", 64000, 50, 3000000, 700)],
+    "C12": spec([reg("C12", 64000, 50, 3000000, 700), tw(5000, 20, 300000, 150)],
                 rule=("each run: one registry on a stock-shaped std_rtti "
                       "policy (offsets read at run time) and on its twin whose "
                       "pooled methods all have static_offsets<> "
@@ -98,8 +98,14 @@ PROPS = {
                     "of constexpr ones; the library only reads slots[i] and "
                     "strides[i]",
                     "the generator needs std_rtti (it demangles type_info "
-                    "names): only the stock debug / release shapes are used"]),
-    "C13": spec([reg("C13", 160000, 45, 4000000, 700)],
+                    "names): only the stock debug / release shapes are used",
+                    "engine tw under C12: after every update of a typed-world "
+                    "history on a stock std_rtti policy the generator's text "
+                    "for the policy is compared with the installed offsets of "
+                    "the twelve real methods (text against installed only; "
+                    "the typed world has no static_offsets specialisations)",
+                    TW_NOTE]),
+    "C13": spec([reg("C13", 160000, 45, 4000000, 700), tw(5000, 25, 300000, 150)],
                 rule=("each run: a generator process (load / unload / update "
                       "history on a stock-shaped std_rtti policy, the last "
                       "update is encoded with the real encode_dispatch_data), "
@@ -127,7 +133,14 @@ PROPS = {
                     "known finding K1 (next slots are not installed by "
                     "decode) is tolerated run by run and reported as "
                     "KNOWN-FINDING; definitions then do not call next after "
-                    "decode"]),
+                    "decode",
+                    "engine tw under C13: the last update of a typed-world "
+                    "history is encoded, every registration object destroyed "
+                    "and constructed again in the same order, the text "
+                    "decoded, and every tuple of every loaded method called "
+                    "through the real thunks (definitions that call next are "
+                    "left out, K1)",
+                    TW_NOTE]),
     "C14": spec([reg("C14", 40000, 45, 2000000, 780),
                  reg("tw2", 4000, 25, 200000, 200)],
                 extra_assumptions=[TW_NOTE,
